@@ -65,7 +65,15 @@ func c04Run(c *mon.Ctx, unit int) {
 				Types: append(append([]*model.TypeDef{}, s.Types...), &model.TypeDef{Name: "@gen", Root: s.Root}), Enums: s.Enums, OptKeys: s.OptKeys}
 			ec = &gen.EveryCase{S: s, Scalars: ec.Scalars}
 		}
-		sp := specOf(s, model.Style{})
+		st := model.Style{}
+		if k%6 == 5 {
+			// nodes that carry neither rules nor a note get an annotation that says nothing
+			st = model.Style{BareAnnot: true}
+			if r.Bool() {
+				st.Mixed = r.Fork()
+			}
+		}
+		sp := specOf(s, st)
 		built := buildSchema(sp)
 		if built.check.Panic != "" {
 			c.Violate("check-panic", c04Case{Spec: sp}, "no panic", built.check.String(), "Check panicked")
